@@ -414,7 +414,13 @@ func ParseFile(src string) (f *File, err error) {
 		if t.Kind == TSentenceEnd {
 			s, perr := parseSentence(toks[start:i], src)
 			if perr != nil {
-				return f, perr
+				// keep going: one malformed sentence must not hide the others
+				s.Kind = "unparsed"
+				s.Err = perr.Error()
+				if i > start+1 && toks[start].Text == "Definition" {
+					s.Name = toks[start+1].Text
+				}
+				f.Bad = append(f.Bad, s)
 			}
 			f.Sentences = append(f.Sentences, s)
 			start = i + 1
